@@ -115,8 +115,11 @@ def cases(draw, cells):
     for (fname, i, ref, card) in T.seg_fields(v, 'MSH'):
         if i in (3, 4, 5, 6) and draw(st.booleans()):
             mshf.append([fname, i, draw(field_model(v, ref, ec))[:1]])
+    # MSH-12 with its second component (internationalisation code), where the version defines MSH-12 as a composite
+    row12 = [r for r in T.seg_fields(v, 'MSH') if r[1] == 12]
+    msh12 = draw(st.sampled_from([None, None, 'USA', 'CAN'])) if row12 and T.ref_children(v, row12[0][2]) else None
     return {'v': v, 'm': m, 'ec': {k: ec[k] for k in ec if k not in ('SEGMENT', 'GROUP')}, 'model': model, 'msh': mshf,
-            'how': draw(st.integers(0, 4))}
+            'how': draw(st.integers(0, 4)), 'msh12': msh12}
 
 
 def _enc_field(reps, ec):
@@ -128,7 +131,7 @@ def _enc_field(reps, ec):
 def expected_text(case):
     v, m = case['v'], case['m']
     ec = R.full(case['ec'])
-    f = {9: S.msh9_text(v, m, ec), 7: '20200101', 12: v}
+    f = {9: S.msh9_text(v, m, ec), 7: '20200101', 12: v + (ec['COMPONENT'] + case['msh12'] if case.get('msh12') else '')}
     for fname, i, reps in case['msh']:
         f[i] = _enc_field(reps, ec)
     vals = [f.get(i, '') for i in range(3, max(f) + 1)]
@@ -204,6 +207,8 @@ def build(case):
     ec = R.full(case['ec'])
     msg.msh.msh_7 = '20200101'
     msg.msh.msh_9 = S.msh9_text(v, m, ec)
+    if case.get('msh12'):
+        msg.msh.msh_12 = v + ec['COMPONENT'] + case['msh12']
     rows = {r[0]: r for r in T.seg_fields(v, 'MSH')}
     for fname, i, reps in case['msh']:
         setattr(msg.msh, fname, _enc_field(reps, ec))          # string assignment: parsed with the message's set
